@@ -3,6 +3,7 @@
 -/
 import Dlismodel.Proofs.Api
 import Dlismodel.Props.C03
+import Dlismodel.Props.C07
 namespace Dlis.C18
 open Dlis
 
@@ -33,6 +34,38 @@ theorem frames_independent (f1 f2 : ObName) (rows1 rows2 : List (List Slot)) (c 
     (b1 b2 : List Bytes) (e1 : frameRecords f1 rows1 0 none c = .ok b1) (e2 : frameRecords f2 rows2 0 none c = .ok b2) :
     b1.length = (window rows1 0 none).length ∧ b2.length = (window rows2 0 none).length :=
   ⟨(C03.frame_data_roundtrip f1 rows1 0 none c hc h1 b1 e1).1, (C03.frame_data_roundtrip f2 rows2 0 none c hc h2 b2 e2).1⟩
+
+/-- what can be reached from an object by following references (attributes holding objects), any number of steps -/
+inductive Reach (es : List Edge) : Nat → Nat → Prop
+  | refl (i : Nat) : Reach es i i
+  | step {i j k : Nat} : Reach es i j → (∃ e ∈ es, e.holder = j ∧ e.target = k) → Reach es i k
+
+/-- a written file is closed under references per logical file: in every reachable state that `write` accepts,
+everything reachable from an object through references — directly or through any chain of them — was added through
+that object's logical file (so no logical file depends on an object of another) -/
+theorem reference_closure_isolated (n : Nat) (ops : List Op) (hv : ∀ op ∈ ops, op.lf < n)
+    (c f : Nat) (es : List Edge) (fid : Nat → Bool)
+    (hacc : acceptWrite (run (World.init n) ops) c f es fid = .ok ())
+    (i j : Nat) (hi : i < (run (World.init n) ops).items.length) (hr : Reach es i j) :
+    ∃ hj : j < (run (World.init n) ops).items.length,
+      (run (World.init n) ops).items[j].lf = (run (World.init n) ops).items[i].lf := by
+  induction hr with
+  | refl => exact ⟨hi, rfl⟩
+  | step _ hstep ih =>
+    obtain ⟨hj, hlf⟩ := ih
+    obtain ⟨e, he, rfl, rfl⟩ := hstep
+    obtain ⟨ht, hsame, _⟩ := C07.accepted_references_resolve n ops hv c f es fid hacc e he hj
+    exact ⟨ht, hsame.trans hlf⟩
+
+/-- non-vacuity: a chain group → channel → axis within logical file 1 of an accepted two-file state -/
+example :
+    let w := run (World.init 2) [.origin 0 (some [48]) [79] none .ok, .item 0 11 (some [48]) [67] none .ok,
+      .item 0 12 (some [48]) [70] none .ok, .origin 1 (some [49]) [79] none .ok, .item 1 11 (some [49]) [67] none .ok,
+      .item 1 12 (some [49]) [70] none .ok, .item 1 2 (some [49]) [65] none .ok, .item 1 10 (some [49]) [71] none .ok]
+    acceptWrite w 11 12 [⟨2, 1, true⟩, ⟨5, 4, true⟩, ⟨7, 4, false⟩, ⟨4, 6, false⟩] (fun _ => true) = .ok () ∧
+    Reach [⟨2, 1, true⟩, ⟨5, 4, true⟩, ⟨7, 4, false⟩, ⟨4, 6, false⟩] 7 6 := by
+  refine ⟨by decide +kernel, ?_⟩
+  exact .step (.step (.refl 7) ⟨⟨7, 4, false⟩, by simp, rfl, rfl⟩) ⟨⟨4, 6, false⟩, by simp, rfl, rfl⟩
 
 example : writable (run (World.init 2) [.origin 0 none [79] none .ok, .origin 1 none [80] none .ok]) = false := by
   decide +kernel
